@@ -497,3 +497,36 @@ func posOf(in ssa.Instruction) token.Pos {
 	}
 	return token.NoPos
 }
+
+// calleeOf returns the generic origin of a statically resolved callee (instances created inside generic
+// bodies have Pkg == nil and names such as "OnceValue[T]").
+func calleeOf(cc *ssa.CallCommon) *ssa.Function {
+	if cc.IsInvoke() {
+		return nil
+	}
+	return origin(cc.StaticCallee())
+}
+
+// baseName strips type arguments from an instantiated function name.
+func baseName(f *ssa.Function) string {
+	n := f.Name()
+	if i := strings.Index(n, "["); i >= 0 {
+		n = n[:i]
+	}
+	return n
+}
+
+// isCallTo: static call of pkgPath.(recv).name ("" recv for package-level functions).
+func isCallTo(cc *ssa.CallCommon, pkgPath, recv, name string) bool {
+	f := calleeOf(cc)
+	if f == nil || baseName(f) != name {
+		return false
+	}
+	if recv == "" {
+		return f.Signature.Recv() == nil && f.Pkg != nil && f.Pkg.Pkg.Path() == pkgPath
+	}
+	if f.Signature.Recv() == nil {
+		return false
+	}
+	return isNamedType(f.Signature.Recv().Type(), pkgPath, recv)
+}
